@@ -62,7 +62,7 @@ def behaviour_of(segment):
             continue
         a = {"a": e}
         for k in ("c", "p", "r", "res", "add", "del", "cust", "prov",
-                  "margin", "timing"):
+                  "margin", "timing", "in_parent", "for_child"):
             if k in ev:
                 a[k] = ev[k]
         if e == "Step":
@@ -182,6 +182,21 @@ def generate(chk, themes, num, depth, seed):
                            {"a": "ExpectByMargin",
                             "margin": MARGIN_HOURS * 3600},
                            {"a": "Settle"}])
+                # ... and once in the middle of a roll: right after the first
+                # activation, when the old key still has its publication
+                # point (observed on the CAs' own object stores, nothing is
+                # published in between)
+                k = next((j for j, a in enumerate(acts)
+                          if a.get("a") == "RollActivate" and j > first), None)
+                if k is not None:
+                    acts = (acts[:k + 1]
+                            + [{"a": "Mark"}, {"a": "RestartMargin"},
+                               {"a": "RepublishByStoreMargin",
+                                "margin": MARGIN_HOURS * 3600},
+                               {"a": "ExpectStoreByMargin",
+                                "margin": MARGIN_HOURS * 3600},
+                               {"a": "RestartNormal"}]
+                            + acts[k + 1:])
             if theme == "agg":
                 # route origins are aggregated per origin AS as soon as a CA
                 # has more than one authorisation (so that one update can
